@@ -11,6 +11,9 @@ import (
 type Prog struct {
 	Name string
 	Src  string
+	// GcSrc, if set, is the equivalent source given to gc when Src uses the
+	// harness' native package "helper" (whose functions are defined locally there).
+	GcSrc string
 }
 
 func hdr() string { return "package main\n\n" }
@@ -27,7 +30,7 @@ func pipeline(s, n, b int) Prog {
 	}
 	fmt.Fprintf(&w, "\tgo func() {\n\t\tfor i := 1; i <= %d; i++ {\n\t\t\tc0 <- i\n\t\t}\n\t\tclose(c0)\n\t}()\n", n)
 	fmt.Fprintf(&w, "\tfor v := range c%d {\n\t\tprintln(v)\n\t}\n\tprintln(\"end\")\n}\n", s)
-	return Prog{fmt.Sprintf("pipeline-s%d-n%d-b%d", s, n, b), w.String()}
+	return Prog{Name: fmt.Sprintf("pipeline-s%d-n%d-b%d", s, n, b), Src: w.String()}
 }
 
 // fan: w workers read jobs and send results; main sums (order-insensitive).
@@ -39,7 +42,7 @@ func fan(workers, n, b int) Prog {
 	fmt.Fprintf(&w, "\tfor k := 0; k < %d; k++ {\n\t\tgo func(id int) {\n\t\t\tfor j := range jobs {\n\t\t\t\tres <- j * j\n\t\t\t}\n\t\t}(k)\n\t}\n", workers)
 	fmt.Fprintf(&w, "\tgo func() {\n\t\tfor i := 1; i <= %d; i++ {\n\t\t\tjobs <- i\n\t\t}\n\t\tclose(jobs)\n\t}()\n", n)
 	fmt.Fprintf(&w, "\tsum := 0\n\tfor i := 0; i < %d; i++ {\n\t\tsum += <-res\n\t}\n\tprintln(\"sum\", sum)\n}\n", n)
-	return Prog{fmt.Sprintf("fan-w%d-n%d-b%d", workers, n, b), w.String()}
+	return Prog{Name: fmt.Sprintf("fan-w%d-n%d-b%d", workers, n, b), Src: w.String()}
 }
 
 // closeRange: consumer goroutine ranges until close, reports through done.
@@ -50,7 +53,7 @@ func closeRange(n, b int) Prog {
 	fmt.Fprintf(&w, "\tc := make(chan string, %d)\n\tdone := make(chan int)\n", b)
 	w.WriteString("\tgo func() {\n\t\ttot := 0\n\t\tfor s := range c {\n\t\t\ttot += len(s)\n\t\t}\n\t\tv, ok := <-c\n\t\tif ok || v != \"\" {\n\t\t\ttot = -1\n\t\t}\n\t\tdone <- tot\n\t}()\n")
 	fmt.Fprintf(&w, "\tfor i := 0; i < %d; i++ {\n\t\tc <- \"ab\"\n\t}\n\tclose(c)\n\tprintln(\"total\", <-done)\n}\n", n)
-	return Prog{fmt.Sprintf("closerange-n%d-b%d", n, b), w.String()}
+	return Prog{Name: fmt.Sprintf("closerange-n%d-b%d", n, b), Src: w.String()}
 }
 
 // selectSum: two producers, main selects twice; every order gives the same sum.
@@ -67,7 +70,7 @@ func selectSum(b1, b2 int, nilArm bool) Prog {
 		w.WriteString("\t\tcase u := <-z:\n\t\t\tx += u + 1000\n\t\tcase z <- 5:\n\t\t\tx += 5000\n")
 	}
 	w.WriteString("\t\t}\n\t}\n\tprintln(x)\n}\n")
-	return Prog{fmt.Sprintf("selectsum-b%d-%d-nil%v", b1, b2, nilArm), w.String()}
+	return Prog{Name: fmt.Sprintf("selectsum-b%d-%d-nil%v", b1, b2, nilArm), Src: w.String()}
 }
 
 // selectSend: two send cases ready on buffered channels; after two rounds both
@@ -81,7 +84,7 @@ func selectSend(withRecvOK bool) Prog {
 	} else {
 		w.WriteString("\tprintln(<-a, <-b)\n}\n")
 	}
-	return Prog{fmt.Sprintf("selectsend-ok%v", withRecvOK), w.String()}
+	return Prog{Name: fmt.Sprintf("selectsend-ok%v", withRecvOK), Src: w.String()}
 }
 
 // goDepth: go statement with arguments issued at call depth d.
@@ -90,7 +93,7 @@ func goDepth(d int) Prog {
 	w.WriteString(hdr())
 	w.WriteString("func f(d int, s string, c chan int) int {\n\tif d == 0 {\n\t\tgo func(a, b int, t string) {\n\t\t\tc <- a + b + len(t)\n\t\t}(d+1, 7, s+\"x\")\n\t\treturn 1\n\t}\n\treturn f(d-1, s+\"y\", c) + 1\n}\n\n")
 	fmt.Fprintf(&w, "func main() {\n\tc := make(chan int)\n\tn := f(%d, \"\", c)\n\tprintln(n, <-c)\n}\n", d)
-	return Prog{fmt.Sprintf("godepth-%d", d), w.String()}
+	return Prog{Name: fmt.Sprintf("godepth-%d", d), Src: w.String()}
 }
 
 // token: a buffered channel of capacity 1 used as a mutex around a shared counter.
@@ -98,7 +101,7 @@ func token(k int) Prog {
 	var w strings.Builder
 	w.WriteString(hdr())
 	fmt.Fprintf(&w, "func main() {\n\ttok := make(chan int, 1)\n\tdone := make(chan bool)\n\tcount := 0\n\tfor g := 0; g < 2; g++ {\n\t\tgo func() {\n\t\t\tfor i := 0; i < %d; i++ {\n\t\t\t\ttok <- 1\n\t\t\t\tcount = count + 1\n\t\t\t\t<-tok\n\t\t\t}\n\t\t\tdone <- true\n\t\t}()\n\t}\n\t<-done\n\t<-done\n\tprintln(\"count\", count)\n}\n", k)
-	return Prog{fmt.Sprintf("token-k%d", k), w.String()}
+	return Prog{Name: fmt.Sprintf("token-k%d", k), Src: w.String()}
 }
 
 // pingPong: strict alternation over two unbuffered channels.
@@ -106,7 +109,7 @@ func pingPong(n int) Prog {
 	var w strings.Builder
 	w.WriteString(hdr())
 	fmt.Fprintf(&w, "func main() {\n\tping := make(chan int)\n\tpong := make(chan int)\n\tgo func() {\n\t\tfor v := range ping {\n\t\t\tpong <- v + 100\n\t\t}\n\t\tclose(pong)\n\t}()\n\tfor i := 0; i < %d; i++ {\n\t\tping <- i\n\t\tprintln(<-pong)\n\t}\n\tclose(ping)\n\t_, ok := <-pong\n\tprintln(ok)\n}\n", n)
-	return Prog{fmt.Sprintf("pingpong-n%d", n), w.String()}
+	return Prog{Name: fmt.Sprintf("pingpong-n%d", n), Src: w.String()}
 }
 
 // loopVar: goroutines capture the per-iteration loop variable (Go 1.22 semantics).
@@ -114,7 +117,7 @@ func loopVar(n int) Prog {
 	var w strings.Builder
 	w.WriteString(hdr())
 	fmt.Fprintf(&w, "func main() {\n\tres := make(chan int)\n\tfor i := 0; i < %d; i++ {\n\t\tgo func() {\n\t\t\tres <- i * 10\n\t\t}()\n\t}\n\tsum := 0\n\tfor i := 0; i < %d; i++ {\n\t\tsum += <-res\n\t}\n\tprintln(sum)\n}\n", n, n)
-	return Prog{fmt.Sprintf("loopvar-n%d", n), w.String()}
+	return Prog{Name: fmt.Sprintf("loopvar-n%d", n), Src: w.String()}
 }
 
 // recvSelectDone: worker selects between work and a quit channel; quit is only
@@ -123,7 +126,60 @@ func recvSelectDone(n int) Prog {
 	var w strings.Builder
 	w.WriteString(hdr())
 	fmt.Fprintf(&w, "func main() {\n\twork := make(chan int)\n\tack := make(chan int)\n\tquit := make(chan bool)\n\tfin := make(chan string)\n\tgo func() {\n\t\tfor {\n\t\t\tselect {\n\t\t\tcase v := <-work:\n\t\t\t\tack <- v + 1\n\t\t\tcase <-quit:\n\t\t\t\tfin <- \"bye\"\n\t\t\t\treturn\n\t\t\t}\n\t\t}\n\t}()\n\tfor i := 0; i < %d; i++ {\n\t\twork <- i\n\t\tprintln(<-ack)\n\t}\n\tclose(quit)\n\tprintln(<-fin)\n}\n", n)
-	return Prog{fmt.Sprintf("selectquit-n%d", n), w.String()}
+	return Prog{Name: fmt.Sprintf("selectquit-n%d", n), Src: w.String()}
+}
+
+// selectShapes: one goroutine executes two differently shaped selects (send
+// first, then receive first) so that the VM reuses its select-case slots with
+// another direction; in each select exactly one case is ready.
+func selectShapes() Prog {
+	src := hdr() + `func main() {
+	a := make(chan int, 1)
+	b := make(chan int, 1)
+	for round := 0; round < 2; round++ {
+		select {
+		case a <- round + 1:
+			println("sent", round)
+		case v := <-b:
+			println("early", v)
+		}
+		b <- 7 + round
+		select {
+		case v := <-b:
+			println("got", v)
+		case a <- 100:
+			println("late")
+		}
+		select {
+		case w := <-a:
+			println("drained", w)
+		default:
+			println("empty")
+		}
+	}
+}
+`
+	return Prog{Name: "selectshapes", Src: src}
+}
+
+// multiConsumer: k consumers range over one small buffered channel; the grand total is fixed.
+func multiConsumer(k, n int) Prog {
+	var w strings.Builder
+	w.WriteString(hdr())
+	fmt.Fprintf(&w, "func main() {\n\tch := make(chan int, 2)\n\tres := make(chan int)\n\tfor c := 0; c < %d; c++ {\n\t\tgo func() {\n\t\t\tsum := 0\n\t\t\tcnt := 0\n\t\t\tfor {\n\t\t\t\tv, ok := <-ch\n\t\t\t\tif !ok {\n\t\t\t\t\tbreak\n\t\t\t\t}\n\t\t\t\tsum += v\n\t\t\t\tcnt++\n\t\t\t}\n\t\t\tres <- sum*1000 + cnt\n\t\t}()\n\t}\n", k)
+	fmt.Fprintf(&w, "\tfor i := 1; i <= %d; i++ {\n\t\tch <- i\n\t}\n\tclose(ch)\n\ttotal := 0\n\tfor c := 0; c < %d; c++ {\n\t\ttotal += <-res\n\t}\n\tprintln(\"total\", total)\n}\n", n, k)
+	return Prog{Name: fmt.Sprintf("multiconsumer-k%d-n%d", k, n), Src: w.String()}
+}
+
+// nativeGo: a native (host) function started with the go statement several
+// times in a row; gc gets the same function defined locally.
+func nativeGo(n int) Prog {
+	body := fmt.Sprintf("func main() {\n\tch := make(chan int)\n\tfor i := 1; i <= %d; i++ {\n\t\tgo SEND(ch, i)\n\t}\n\tsum := 0\n\tfor i := 0; i < %d; i++ {\n\t\tsum += <-ch\n\t}\n\tprintln(\"sum\", sum)\n}\n", n, n)
+	return Prog{
+		Name:  fmt.Sprintf("nativego-n%d", n),
+		Src:   "package main\n\nimport \"helper\"\n\n" + strings.ReplaceAll(body, "SEND", "helper.Send"),
+		GcSrc: "package main\n\nfunc send(ch chan int, v int) { ch <- v }\n\n" + strings.ReplaceAll(body, "SEND", "send"),
+	}
 }
 
 // Programs returns the program grid of a tier.
@@ -170,5 +226,9 @@ func Programs(tier string) []Prog {
 	}
 	ps = append(ps, loopVar(2), loopVar(3))
 	ps = append(ps, recvSelectDone(1), recvSelectDone(2))
+	ps = append(ps, selectShapes(), multiConsumer(2, 3), nativeGo(2), nativeGo(3))
+	if tier == "thorough" {
+		ps = append(ps, multiConsumer(3, 4), nativeGo(8))
+	}
 	return ps
 }
